@@ -124,14 +124,17 @@ class World(EventDispatcher):
             f'Entity ID must be hashble, found {entity}, which is not')
 
         component_type = type(component)
-        if component_type not in self._components:
-            self._components[component_type] = set()
-
-        self._components[component_type].add(entity)
 
         # Manage replaced components
         if component_type in self._entities.get(entity, {}):
             self.remove_component(entity, component_type)
+
+        # Index the new component after the removal of a replaced one,
+        # which would otherwise drop the entity from the type index
+        if component_type not in self._components:
+            self._components[component_type] = set()
+
+        self._components[component_type].add(entity)
 
         if entity not in self._entities:
             self._entities[entity] = {}
